@@ -184,7 +184,7 @@ def run_plain(conf, events, workdir, insert=None):
     """Lock-step run; insert = (pos, fn(spec)->line or None).  Returns list of
     (line, out, in_use), spec, info."""
     d = dm.Daemon(ep.conf_text(conf), workdir)
-    info = {"died": False, "stray_out": None, "really": None, "line": None, "live_at": False, "later": 0}
+    info = {"died": False, "hang": False, "stray_out": None, "really": None, "line": None, "live_at": False, "later": 0}
     steps = []
     try:
         try:
@@ -231,9 +231,14 @@ def run_plain(conf, events, workdir, insert=None):
                 steps.append((line, out, in_use))
                 if insert is not None and i >= insert[0] and len(ev) > 1 and ev[1] == insert[2] and ev[0] not in ("X", "x"):
                     info["later"] += 1
-        except (dm.DaemonDied, dm.DaemonHang):
+        except dm.DaemonDied:
             info["died"] = True
-        d.finish()
+        except dm.DaemonHang:
+            info["died"] = True
+            info["hang"] = True
+            d.kill()
+        if not info["hang"]:
+            d.finish()
     finally:
         if d.p.poll() is None:
             d.kill()
@@ -247,14 +252,14 @@ def eval_c04(case, ctx):
     stray = case["stray"]
     base, spec0, info0 = run_plain(case["conf"], case["events"], wd)
     if info0["died"] or spec0 is None:
-        res.inconclusive = "sut_died"
+        res.inconclusive = "sut_hang" if info0["hang"] else "sut_died"
         return res
     shutil.rmtree(wd, ignore_errors=True)
     pos = min(stray["pos"], len(case["events"]))
     mod, spec1, info = run_plain(case["conf"], case["events"], wd,
                                  insert=(pos, lambda sp: stray_line(stray, case["conf"], sp), stray["id"]))
     if info["died"]:
-        res.inconclusive = "sut_died"
+        res.inconclusive = "sut_hang" if info["hang"] else "sut_died"
         return res
     if not info["really"]:
         res.classes.add("not_stray_reclassified")
@@ -339,16 +344,21 @@ def eval_c07(case, ctx):
         shutil.rmtree(wd, ignore_errors=True)
         steps, spec, info = run_plain(case["conf"], sc, wd)
         if info["died"]:
-            res.inconclusive = "sut_died"
+            res.inconclusive = "sut_hang" if info["hang"] else "sut_died"
             return res
         solo.append(conversation(steps, sc[0][1]))
     shutil.rmtree(wd, ignore_errors=True)
     events = merge(scripts, case["order"])
     # track overlap for the non-trivial rule
     steps, spec, info = run_plain(case["conf"], events, wd)
-    if info["died"]:
+    if info["died"] and not info["hang"]:
         res.inconclusive = "sut_died"
         return res
+    if info["hang"]:
+        # every client was served to the end when alone; with the others' traffic mixed in the daemon stopped
+        # answering: whatever the clients did not get is a difference caused by other clients' traffic
+        res.inconclusive = "sut_hang"
+        res.classes.add("interleaved_run_stopped_answering")
     for i, sc in enumerate(scripts):
         cid = sc[0][1]
         inter = conversation(steps, cid)
@@ -362,7 +372,7 @@ def eval_c07(case, ctx):
             break
     # the same interleaving written in one piece (the daemon then reads it in 4096-byte chunks):
     # still the same per-client conversations
-    if not res.violations:
+    if not res.violations and not info["hang"]:
         import eng_proto3 as ep3
         spec_b = proto.Spec(proto.Conf(case["conf"]), "ARUW")
         lines = []
@@ -565,9 +575,12 @@ def eval_c09(case, ctx):
                 spec.feed_output(i, out)
                 all_lines.extend(out)
                 all_lines.extend(b.decode("latin-1") for b in stats)
-        except (dm.DaemonDied, dm.DaemonHang):
+        except dm.DaemonDied:
             res.inconclusive = "sut_died"
-        rc, rest, err = d.finish()
+        except dm.DaemonHang:
+            res.inconclusive = "sut_hang"
+            d.kill()
+        rc, rest, err = d.finish() if res.inconclusive != "sut_hang" else (None, [], "")
         all_lines.extend(b.decode("latin-1") for b in rest)
     finally:
         if d.p.poll() is None:
